@@ -460,7 +460,7 @@ pub fn cases_for(plan: &Plan, seed: u64) -> (Vec<(String, History)>, usize) {
             prof.valid_add_pct = 80;
             prof.max_ops = 50;
         }
-        if plan.compare != Compare::TwoRun && (i % 5 == 4 || (plan.compare == Compare::Backends && i % 5 == 2)) {
+        if plan.compare != Compare::TwoRun && (i % 5 == 4 || i % 5 == 2) {
             prof.entangle_pct = 60;
         }
         // wide: many clients on one server (per-client caches, tables keyed by client, eviction)
